@@ -12,17 +12,17 @@ SimInit == Init /\ done = FALSE
 
 RE(S) == RandomElement(S)
 \* the random choices are passed as operator arguments: TLC evaluates an argument once per call
-Pick(o, c, v, k, p) ==
+Pick(o, c, v, k, p, w) ==
   IF \E q \in Objs : ex[q] THEN Expire(CHOOSE q \in Objs : ex[q])
   ELSE IF k <= 12 THEN Set(o, c, v, FALSE)
-  ELSE IF k = 13 /\ WithEx THEN Set(o, c, v, TRUE)
-  ELSE IF k <= 16 /\ pos[o] # 0 THEN Fset(o, IF v = -1 THEN 0 ELSE v)
+  ELSE IF k = 13 /\ c \in ExCells THEN Set(o, c, v, TRUE)
+  ELSE IF k <= 16 /\ pos[o] # 0 THEN Fset(o, w)
   ELSE IF k = 17 THEN Del(o)
   ELSE IF k = 18 /\ PdelPats # {} THEN Pdel(p)
   ELSE IF k = 19 THEN Drop
   ELSE Set(o, c, v, FALSE)
 SimStep == /\ Len(hist) < MaxHist
-           /\ Pick(RE(Objs), RE(Cells), RE(FVals \cup {-1}), RE(1..20), RE(PdelPats \cup {<<"*">>}))
+           /\ Pick(RE(Objs), RE(Cells), RE(SetVals), RE(1..20), RE(PdelPats \cup {<<"*">>}), RE(FVals))
            /\ UNCHANGED done
 Finish == /\ Len(hist) = MaxHist /\ ~done /\ done' = TRUE
           /\ UNCHANGED vars
